@@ -448,11 +448,17 @@ where
     fn call(&mut self, req: http::Request<BIn>) -> Self::Future {
         let (parts, body) = req.into_parts();
 
+        let Some(http_protocol) = HttpProtocol::from_version(parts.version) else {
+            return self::future::ResponseFuture::error(ConnectionError::UnsupportedVersion(
+                parts.version,
+            ));
+        };
+
         let connector = Connector::new(
             self.transport.clone(),
             self.protocol.clone(),
             parts.clone(),
-            parts.version.into(),
+            http_protocol,
         );
 
         let req = http::Request::from_parts(parts, body);
@@ -531,8 +537,7 @@ mod future {
             }
         }
 
-        #[allow(dead_code)]
-        fn error(error: ConnectionError) -> Self {
+        pub(super) fn error(error: ConnectionError) -> Self {
             Self {
                 inner: ResponseFutureState::ConnectionError(Some(error)),
                 meta: ConnectorMeta::new(),
@@ -594,9 +599,12 @@ mod future {
                         }
                     },
                     ResponseFutureStateProj::ConnectionError(error) => {
-                        return Poll::Ready(Err(ClientError::Connection(
-                            error.take().expect("error polled again").into(),
-                        )));
+                        return Poll::Ready(Err(match error.take().expect("error polled again") {
+                            ConnectionError::UnsupportedVersion(_) => {
+                                ClientError::UnsupportedProtocol
+                            }
+                            error => ClientError::Connection(error.into()),
+                        }));
                     }
                 };
                 this.inner.set(next);
